@@ -112,19 +112,26 @@ pub fn exec_op(ctx: &mut ArrCtx, verb: &str, m: &BTreeMap<String, String>, line:
             format!("{} faults n={} ok_with_fault={} panics={} cached_wrong={}", r0, n, ok_with_fault, panics, cached_wrong)
         }
         _ => {
-            // metadata / group methods under faults
+            // metadata / group methods under faults (Zarr V2 nodes, whose attributes live under a second key, included)
+            let _ = base.set(&StoreKey::new("grp2_c20/.zgroup").unwrap(), br#"{"zarr_format":2}"#.to_vec().into());
+            let _ = base.set(&StoreKey::new("grp2_c20/.zattrs").unwrap(), br#"{"spam":"ham","eggs":42}"#.to_vec().into());
+            let _ = base.set(&StoreKey::new("arr2_c20/.zarray").unwrap(), br#"{"zarr_format":2,"shape":[4,6],"chunks":[2,3],"dtype":"|u1","compressor":null,"fill_value":0,"order":"C","filters":null}"#.to_vec().into());
+            let _ = base.set(&StoreKey::new("arr2_c20/.zattrs").unwrap(), br#"{"a":1}"#.to_vec().into());
             let snap0 = snapshot(&base);
             let run = |which: &str| -> bool {
                 match which {
                     "store_metadata" => array.store_metadata().is_ok(),
                     "erase_metadata" => array.erase_metadata().is_ok(),
                     "open" => Array::open(fsd.clone(), &ctx.path).is_ok(),
+                    "open_v2" => Group::open(fsd.clone(), "/grp2_c20").map(|g| g.attributes().len() == 2).unwrap_or(false)
+                        && Array::open(fsd.clone(), "/arr2_c20").map(|a| a.attributes().len() == 1).unwrap_or(false)
+                        && zarrs::node::Node::open(&fsd, "/grp2_c20").is_ok(),
                     "group" => { let g = GroupBuilder::new().build(fsd.clone(), "/grp_c20"); match g { Ok(g) => g.store_metadata().is_ok() && Group::open(fsd.clone(), "/grp_c20").is_ok() && g.erase_metadata().is_ok(), Err(_) => false } }
                     _ => false,
                 }
             };
             let mut out = vec![];
-            for which in ["store_metadata", "open", "group", "erase_metadata"] {
+            for which in ["store_metadata", "open", "open_v2", "group", "erase_metadata"] {
                 restore(&base, &snap0);
                 fs.count.store(0, Ordering::SeqCst); fs.fail_at.store(0, Ordering::SeqCst);
                 let ok0 = std::panic::catch_unwind(std::panic::AssertUnwindSafe(|| run(which))).unwrap_or(false);
@@ -139,6 +146,7 @@ pub fn exec_op(ctx: &mut ArrCtx, verb: &str, m: &BTreeMap<String, String>, line:
             }
             fs.fail_at.store(0, Ordering::SeqCst);
             restore(&base, &snap0);
+            for k in ["grp2_c20/.zgroup", "grp2_c20/.zattrs", "arr2_c20/.zarray", "arr2_c20/.zattrs"] { let _ = base.erase(&StoreKey::new(k).unwrap()); }
             format!("meta {}", out.join(" "))
         }
     }
